@@ -18,6 +18,11 @@ REGISTRY = {
     "C07": ("checks.calls_checks", "c07"),
     "C08": ("checks.calls_checks", "c08"),
     "C16": ("checks.featurizer_checks", "c16"),
+    "C04": ("checks.arith_checks", "c04"),
+    "C05": ("checks.arith_checks", "c05"),
+    "C14": ("checks.arith_checks", "c14"),
+    "C17": ("checks.versions_checks", "c17"),
+    "C19": ("checks.versions_checks", "c19"),
 }
 
 
